@@ -96,10 +96,10 @@ impl HeightField {
         let max = heights.max();
         let min = heights.min();
         let hscale = scale * 0.5;
-        let aabb = Aabb::new(
-            Point3::new(-hscale.x, min * scale.y, -hscale.z),
-            Point3::new(hscale.x, max * scale.y, hscale.z),
-        );
+        // NOTE: order the two corners component-wise so the Aabb stays valid with negative scale components.
+        let a = Point3::new(-hscale.x, min * scale.y, -hscale.z);
+        let b = Point3::new(hscale.x, max * scale.y, hscale.z);
+        let aabb = Aabb::new(a.inf(&b), a.sup(&b));
         let num_triangles = (heights.nrows() - 1) * (heights.ncols() - 1) * 2;
         let status = DMatrix::repeat(
             heights.nrows() - 1,
@@ -554,8 +554,10 @@ impl HeightField {
     /// Sets the scale factor applied to this heightfield.
     pub fn set_scale(&mut self, new_scale: Vector<Real>) {
         let ratio = new_scale.component_div(&self.scale);
-        self.aabb.mins.coords.component_mul_assign(&ratio);
-        self.aabb.maxs.coords.component_mul_assign(&ratio);
+        // NOTE: a negative ratio mirrors the box: re-order its corners component-wise.
+        let a = self.aabb.mins.coords.component_mul(&ratio);
+        let b = self.aabb.maxs.coords.component_mul(&ratio);
+        self.aabb = Aabb::new(a.inf(&b).into(), a.sup(&b).into());
         self.scale = new_scale;
     }
 
